@@ -257,6 +257,7 @@ def run(ctx, rep):
             rep.analysed(f)
 
     full_transfer_rule(P, rep)
+    sticky_failure_rule(P, rep)
 
 def full_transfer_rule(P, rep, rid='R-C08-7'):
     """partial transfers are never success: a block write is accepted only when the byte count returned equals the
@@ -334,3 +335,83 @@ def _reach_blocks(f, b, L):
             continue
         st.extend(f.succ[x])
     return seen
+
+
+def sticky_failure_rule(P, rep, rid='R-C08-8'):
+    """functions that apply one operation to every split file of a parity level (fsync, ftruncate, close): a failure on any split
+    makes the function fail -- either it returns at once, or it records the failure in a variable that only ever receives
+    constants (so a later success cannot erase it) and that is what the function returns"""
+    rep.rule(rid, 'per-split operations (parity_sync / parity_truncate / parity_close): a failure on any split file reaches the return value and cannot be overwritten by a later success', 3)
+    table = (('parity_sync', 'fsync'), ('parity_truncate', 'ftruncate'), ('parity_close', 'close'))
+    for fn, prim in table:
+        f = P.fn(fn)
+        rep.analysed(f)
+        calls = [c for c in f.calls(prim) if f.loop_of(c.block) is not None]
+        if not calls:
+            raise AnalysisBroken('%s: no %s call inside a loop over the splits' % (fn, prim))
+        for c in calls:
+            h = f.loop_of(c.block)
+            brs = cond_branches(f, c)
+            if not brs:
+                rep.fail(rid, '%s: result of %s' % (fn, prim), c.loc(), 'the result of %s is not tested' % prim, function=fn, construct='%s unchecked' % prim)
+                continue
+            br, ci = brs[0]
+            fail_edge = br.ops[2][1] if ci.pred == 'ne' else br.ops[1][1]
+            # accumulators: int locals (and retval) whose every store is a constant
+            acc = {}
+            for i in f.all_insts():
+                if i.op == 'store':
+                    tgt = f.strip(i.ops[1])
+                    if tgt[0] == 'i' and f.insts[tgt[1]].op == 'alloca':
+                        acc.setdefault(tgt[1], []).append(i)
+            sticky = {a for a, sts in acc.items() if all(f.const_of(x.ops[0]) is not None for x in sts)}
+            # what the function returns: retval directly, or a load of a sticky local stored into retval
+            returned = set()
+            for a, sts in acc.items():
+                if (f.insts[a].var or f.insts[a].name or '') == 'retval':
+                    returned.add(a)
+                    for x in sts:
+                        v = f.inst_of(x.ops[0])
+                        if v is not None and v.op == 'load':
+                            al = f.strip(v.ops[0])
+                            if al[0] == 'i':
+                                returned.add(al[1])
+            if not returned:
+                # single return of a loaded local without a retval slot
+                for r_ in f.returns():
+                    v = f.inst_of(r_.ops[0]) if r_.ops else None
+                    if v is not None and v.op == 'load' and f.strip(v.ops[0])[0] == 'i':
+                        returned.add(f.strip(v.ops[0])[1])
+            marks = [x for a in returned for x in acc.get(a, []) if (f.const_of(x.ops[0]) or 0) != 0 and (a in sticky or (f.insts[a].var or f.insts[a].name or '') == 'retval')]
+            esc = f.reach([f.blocks[fail_edge][0]], stop={x.id for x in marks}, include_start=True)
+            lost = []
+            if f.blocks[h][0].id in esc:
+                lost.append('the next split')
+            if any(r_.id in esc for r_ in f.returns()):
+                lost.append('the return')
+            overwritable = [f.insts[a].var for a in returned if a not in sticky and (f.insts[a].var or '') != 'retval']
+            ok = not lost and not overwritable
+            rep.check(ok, rid, '%s: a failing %s makes the function fail' % (fn, prim), c.loc(),
+                      'failure recorded in a constant-only accumulator or returned at once' if ok else ('the failure can reach %s unrecorded' % ' and '.join(lost) if lost else 'the returned variable %s is also assigned non-constant values in the loop: a later success overwrites an earlier failure' % overwritable),
+                      function=fn, construct='%s failure sticky' % prim)
+
+
+def cond_branches(f, call):
+    """conditional branches steered by a comparison of the call result (directly or through the local it is stored in) with 0"""
+    res = []
+    cands = {call.id}
+    names = set()
+    for u in f.users.get(call.id, ()):
+        if u.op == 'store':
+            t = f.strip(u.ops[1])
+            if t[0] == 'i':
+                names.add(t[1])
+    for b in range(len(f.blocks)):
+        t = f.term(b)
+        if t.op == 'br' and len(t.ops) == 3:
+            ci = f.inst_of(t.ops[0])
+            if ci is not None and ci.op == 'icmp' and ci.pred in ('ne', 'eq') and f.const_of(ci.ops[1]) == 0:
+                v = f.inst_of(ci.ops[0])
+                if v is not None and (v.id in cands or (v.op == 'load' and f.strip(v.ops[0])[0] == 'i' and f.strip(v.ops[0])[1] in names)) and t.id in f.reach([call]):
+                    res.append((t, ci))
+    return res
